@@ -68,7 +68,8 @@ def summarize(data):
         return ['ok', data['k'], data['digest'], canon_digest(data.get('echo')) if data.get('echo') is not None else None]
     if data is None:
         return ['none']
-    return ['garbage', repr(data)[:200]]
+    # a top-level (raw) response: identified by its content digest
+    return ['raw', canon_digest(data)]
 
 
 def install_spies(srv_tid_box):
@@ -125,7 +126,7 @@ def run_sock(case):
 
         def payload(k):
             r = reqs[k]
-            return {'k': k, 'lat': r['lat'], 'err': r['err'], 'echo': r['echo'], 'body': bodies[k]}
+            return {'k': k, 'lat': r['lat'], 'err': r['err'], 'echo': r['echo'], 'raw': bool(r.get('raw')), 'body': bodies[k]}
 
         if case['mode'] == 'thread':
             install_spies(srv_tid)
@@ -171,14 +172,19 @@ def run_sock(case):
             q.put = put
             rep['timing']['connected'] = round(time.time() - t_start, 3)
 
+            hung = []
+
             def requester(ks):
                 for k in ks:
                     try:
                         ab = reqs[k].get('abandon')
                         try:
-                            y = client.request('/', payload(k), response_timeout=(ab / 1000 if ab else HANG))
+                            # once a request has run into the hang bound the transport is broken: the remaining
+                            # requests get a short bound, so that the case still reports in time
+                            y = client.request('/', payload(k), response_timeout=(ab / 1000 if ab else (1.0 if hung else HANG)))
                         except concurrent.futures.TimeoutError:
                             if not ab:
+                                hung.append(k)
                                 raise
                             rep['results'][k] = ['abandoned']
                             continue
@@ -203,6 +209,9 @@ def run_sock(case):
                             ['raised', type(y).__name__, repr(y)[:200]]
                         log('syield', x.get('k') if isinstance(x, dict) else None, s)
                         rep['stream_out'].append([x.get('k') if isinstance(x, dict) else None, s])
+                        if s[0] == 'raised' and 'Timeout' in s[1]:
+                            hung.append('stream')      # the transport is broken: do not wait for every further element
+                            break
                 except BaseException as e:  # noqa
                     rep['errors'].append('stream: ' + ''.join(traceback.format_exception_only(type(e), e))[:300])
             deadline = time.time() + HANG + 10
